@@ -6,6 +6,7 @@ import (
 	"go/token"
 	"go/types"
 	"sort"
+	"strings"
 
 	"golang.org/x/tools/go/packages"
 )
@@ -383,4 +384,157 @@ func ruleW2b(r *Run) {
 			return true
 		})
 	})
+}
+
+// W9 (C04/C07): the service codecs size the list of parameter types by the number of arguments on
+// the wire and fill it with copy() from the method's parameters: with more arguments than
+// parameters the tail stays nil.
+func init() {
+	register("W9", "an element of a []reflect.Type that was allocated with a wire-controlled length and filled by copy() (so that its tail can be nil) is used only where nil is acceptable: under a dominating != nil test, or passed to a repository function that itself tests the parameter against nil (Decoder.Read, io.Convert); it is never handed to reflect/reflect2 constructors or dereferenced unchecked", 3, ruleW9)
+}
+
+func ruleW9(r *Run) {
+	p := r.P
+	n := 0
+	nilSafe := map[*types.Func]map[int]bool{}
+	isNilSafeParam := func(f *types.Func, idx int) bool {
+		if m, ok := nilSafe[f]; ok {
+			if v, ok := m[idx]; ok {
+				return v
+			}
+		}
+		res := false
+		if d := p.Decl(f); d != nil && d.Body != nil {
+			pkg := p.PkgOfDecl(d)
+			info := pkg.TypesInfo
+			params := paramsOf(info, d.Type)
+			if idx < len(params) && params[idx] != nil {
+				pv := params[idx]
+				ast.Inspect(d.Body, func(k ast.Node) bool {
+					if be, ok := k.(*ast.BinaryExpr); ok && (be.Op == token.EQL || be.Op == token.NEQ) && identObj(info, be.X) == pv {
+						if id, ok := ast.Unparen(be.Y).(*ast.Ident); ok && id.Name == "nil" {
+							res = true
+						}
+					}
+					return true
+				})
+			}
+		}
+		if nilSafe[f] == nil {
+			nilSafe[f] = map[int]bool{}
+		}
+		nilSafe[f][idx] = res
+		return res
+	}
+	p.EachFunc(func(pkg *packages.Package, fd *ast.FuncDecl) {
+		if !strings.HasPrefix(p.RelPkg(pkg.Types), "rpc") {
+			return
+		}
+		info := pkg.TypesInfo
+		// lists: X := make([]reflect.Type, n) ... copy(X, ..)
+		lists := map[types.Object]bool{}
+		ast.Inspect(fd.Body, func(m ast.Node) bool {
+			as, ok := m.(*ast.AssignStmt)
+			if !ok || len(as.Lhs) != 1 || len(as.Rhs) != 1 {
+				return true
+			}
+			c, ok := ast.Unparen(as.Rhs[0]).(*ast.CallExpr)
+			if !ok || !IsBuiltin(info, c, "make") {
+				return true
+			}
+			if tv, ok := info.Types[c.Args[0]]; !ok || tv.Type.String() != "[]reflect.Type" {
+				return true
+			}
+			if o := identObj(info, as.Lhs[0]); o != nil {
+				lists[o] = true
+			}
+			return true
+		})
+		copied := map[types.Object]bool{}
+		ast.Inspect(fd.Body, func(m ast.Node) bool {
+			if c, ok := m.(*ast.CallExpr); ok && IsBuiltin(info, c, "copy") && len(c.Args) == 2 {
+				if o := identObj(info, c.Args[0]); o != nil && lists[o] {
+					copied[o] = true
+				}
+			}
+			return true
+		})
+		if len(copied) == 0 {
+			return
+		}
+		parents := parentMap(fd.Body)
+		// element expressions: X[i], or the value variable of `for _, t := range X`
+		elemVars := map[types.Object]bool{}
+		ast.Inspect(fd.Body, func(m ast.Node) bool {
+			if rs, ok := m.(*ast.RangeStmt); ok {
+				if o := identObj(info, rs.X); o != nil && copied[o] && rs.Value != nil {
+					if v := identObj(info, rs.Value); v != nil {
+						elemVars[v] = true
+					}
+				}
+			}
+			return true
+		})
+		isElem := func(e ast.Expr) bool {
+			e = ast.Unparen(e)
+			if ie, ok := e.(*ast.IndexExpr); ok {
+				if o := identObj(info, ie.X); o != nil && copied[o] {
+					return true
+				}
+			}
+			if o := identObj(info, e); o != nil && elemVars[o] {
+				return true
+			}
+			return false
+		}
+		perFn := 0
+		ast.Inspect(fd.Body, func(m ast.Node) bool {
+			switch x := m.(type) {
+			case *ast.CallExpr:
+				for i, a := range x.Args {
+					if !isElem(a) {
+						continue
+					}
+					n++
+					perFn++
+					key := fmt.Sprintf("possibly-nil parameter type %s passed to %s in %s #%d", types.ExprString(a), types.ExprString(x.Fun), p.DeclName(fd), perFn)
+					as := types.ExprString(ast.Unparen(a))
+					guard := false
+					for _, fc := range factsWithSwitch(parents, x) {
+						be, ok := fc.e.(*ast.BinaryExpr)
+						if !ok || types.ExprString(ast.Unparen(be.X)) != as {
+							continue
+						}
+						if id, ok := ast.Unparen(be.Y).(*ast.Ident); !ok || id.Name != "nil" {
+							continue
+						}
+						if (be.Op == token.NEQ && !fc.neg) || (be.Op == token.EQL && fc.neg) {
+							guard = true
+						}
+					}
+					if guard {
+						r.Ok(key, x.Pos(), "nil excluded on this path")
+						continue
+					}
+					if f := Callee(info, x); f != nil && p.InRepo(f) && isNilSafeParam(f, i) {
+						r.Ok(key, x.Pos(), p.FuncName(f)+" tests the parameter against nil itself")
+						continue
+					}
+					r.Viol(key, x.Pos(), fmt.Sprintf("%s comes from a type list sized by the number of arguments on the wire and filled by copy() from the method's parameters, so it is nil for every argument beyond the parameters; %s does not accept a nil type: a request with more arguments than the function takes panics in the codec", as, types.ExprString(x.Fun)))
+				}
+			case *ast.SelectorExpr:
+				if isElem(x.X) {
+					if _, isCall := parents[x].(*ast.CallExpr); isCall {
+						n++
+						perFn++
+						r.Viol(fmt.Sprintf("method on possibly-nil parameter type %s in %s #%d", types.ExprString(x.X), p.DeclName(fd), perFn), x.Pos(), "a method is called on a parameter type that is nil for arguments beyond the parameters")
+					}
+				}
+			}
+			return true
+		})
+	})
+	if n == 0 {
+		r.Undec("parameter type lists", 0, "no uses of elements of a copied []reflect.Type found under rpc/")
+	}
 }
